@@ -23,7 +23,7 @@ def gen_plan_case(ch, tier, ft=None, max_len=8, p_applicable=0.7, fluent_reading
             ground.append([a["name"]] + list(call))
     n = ch.int(1, max_len)
     for _ in range(n):
-        if not ground:
+        if not ground or pddl.beyond_float(st):      # the walk stops where the exact reference stops judging
             break
         step = None
         if ch.flag(p_applicable):
